@@ -387,9 +387,10 @@ def run(repo, chk, tier):
 
     check_merge_identity(repo, chk)
     # pre-cached per-chain parts are one of the strategies: they must meet the per-chain quantities of the same chains
-    from .c05_cachedkey import check_cached_key_pairing
+    from .c05_cachedkey import check_cached_key_pairing, check_cached_shape_selection
 
     check_cached_key_pairing(repo, chk)
+    check_cached_shape_selection(repo, chk)
     from .c03_order import check_selection_order
 
     check_selection_order(repo, chk)
